@@ -19,6 +19,7 @@ SMALL = 'aAéÉ-'
 ALPHABETS = {'full': ALPHABET, 'small': SMALL}
 CASE_PAIRS = [('a', 'A'), ('b', 'B'), ('z', 'Z'), ('é', 'É'), ('ж', 'Ж')]
 FORMS = ['literal', 'placeholder', 'prefix-placeholder', 'two-placeholders',
+         'dotted-placeholder',
          'enforce-literal', 'enforce-in-expression']
 
 
@@ -96,7 +97,16 @@ def run_role(ctx, form, xlen, nroles, rlen, alpha='full'):
         if has_key:
             target['k'] = x
         missing_key = not has_key
-        if form == 'placeholder':
+        if form == 'dotted-placeholder':
+            # the key is the flat dotted name; a nested dict under 'k' is
+            # something else and must not be consulted
+            target.pop('k', None)
+            if has_key:
+                target['k.j'] = x
+            if bool(ctx.bool('nested_decoy')):
+                target['k'] = {'j': ctx.str('decoy', ALPHABET, 1, 1)}
+            match = '%(k.j)s'
+        elif form == 'placeholder':
             match = '%(k)s'
         elif form == 'prefix-placeholder':
             match = 'Ab%(k)s'
